@@ -11,7 +11,7 @@ GUARD_POOL = ["g0", "g1", "g2", "g3", "g4", "g5"]
 RET_POOL = [None, 0, "", [], [1], "r", 7, {"k": 1}, {"$t": [1, "x"]}, [None], False, {"$t": []}]
 TRUTHY = [True, True, 1, "yes", [0], 2.5, {"a": 1}, -1]
 FALSY = [False, False, 0, "", [], None, 0.0, {}]
-UNKNOWN_EVENTS = ["nope", "go_", "GO", "gone", "s0", "", "current_state", "allowed_events", "model", "activate_initial_state", "g0"]
+UNKNOWN_EVENTS = ["nope", "go_", "GO", "gone", "s0", "", "current_state", "allowed_events", "model", "activate_initial_state", "g0", "__initial__"]
 
 
 @st.composite
